@@ -11,7 +11,9 @@ PROP = 'C15'
 SCRATCH = f'/dev/shm/verif.c15.{os.getpid()}'
 _CASES = {}
 # XML 1.0 cannot carry control characters; all tokens of the alphabet are representable
-XML_TOKENS = T.ALL_TOKENS + ['_a.b', '_', 'a-b', '!', 'x,y']
+# every character the normaliser has to remove, at the start, in the middle, at the end of a word and doubled
+LOGIC_TOKENS = [w for c in '.,()!-' for w in (f'a{c}b', f'a{c}', f'{c}a', c + c)]
+XML_TOKENS = T.ALL_TOKENS + ['_a.b', '_', 'a-b', '!', 'x,y'] + [w for w in LOGIC_TOKENS if w not in T.ALL_TOKENS]
 
 
 def cases(lang, tier):
